@@ -294,6 +294,8 @@ type harnessJSON struct {
 	Portfolio      int                          `json:"portfolio_queries"`
 	PortfolioWins  map[string]int               `json:"portfolio_wins,omitempty"`
 	Merges         int                          `json:"if_conversions"`
+	PanicChecks    int                          `json:"runtime_checks_decided"`
+	PanicSafe      int                          `json:"runtime_checks_unsat"`
 	InitNotes      []string                     `json:"init_notes,omitempty"`
 	Unwind         int                          `json:"unwind"`
 	Params         map[string]int64             `json:"params,omitempty"`
@@ -319,7 +321,7 @@ func summarize(d *harnessDecl, r *symgo.Report) harnessJSON {
 		Paths: r.Paths, PathsCompleted: r.PathsCompleted, PathsAssumeCut: r.PathsAssumeCut,
 		Branches: r.Branches, Forks: r.Forks, Steps: r.Steps, Queries: r.Queries, Sat: r.NSat, Unsat: r.NUnsat,
 		Unknown: r.NUnknown, SolverS: r.SolverTime.Seconds(), WallS: r.Wall.Seconds(), Terms: r.Terms,
-		Unwind: d.Cfg.Unwind, Params: d.Cfg.Params, Workers: r.Workers, Portfolio: r.PortfolioQueries, PortfolioWins: r.PortfolioWins, Merges: r.Merges, InitNotes: r.InitNotes,
+		Unwind: d.Cfg.Unwind, Params: d.Cfg.Params, Workers: r.Workers, Portfolio: r.PortfolioQueries, PortfolioWins: r.PortfolioWins, Merges: r.Merges, PanicChecks: r.PanicChecks, PanicSafe: r.PanicChecksSafe, InitNotes: r.InitNotes,
 		Failures: r.Failures, Covers: r.Covers, CoverWitness: r.CoverWitness,
 		UnwindFailures: r.UnwindFailures, Unsupported: r.Unsupported, Unknowns: r.Unknowns, Incomplete: r.Incomplete,
 		Funcs: r.FuncsExecuted, Stubs: r.StubsHit, Models: r.ModelsHit, UFs: r.UFsHit, Witnesses: r.Witnesses,
@@ -332,6 +334,7 @@ func summarize(d *harnessDecl, r *symgo.Report) harnessJSON {
 		keys = append(keys, k)
 	}
 	sort.Strings(keys)
+	h.Obligations = []*symgo.Obligation{}
 	for _, k := range keys {
 		h.Obligations = append(h.Obligations, r.Obligations[k])
 	}
